@@ -22,6 +22,13 @@ REQUIRED_FUNCS = ("inter_line_convexpolygon", "inter_line_convexpolyhedron", "in
                   "get_halfline_convexpolyhedron_intersection_point_set", "get_segment_from_point_list",
                   "ConvexPolygon.__contains__", "ConvexPolyhedron.__contains__")
 RESULTS = {"P": ("None", "P"), "L": ("None", "P", "S"), "H": ("None", "P", "S"), "S": ("None", "P", "S")}
+_inner = C.InnerShadow(lambda ka, kb: (ka in gen.FLAT) != (kb in gen.FLAT) and ka in gen.KINDS and kb in gen.KINDS, cap=4, p=0.3)
+
+
+def setup():
+    _inner.install()
+
+
 _diag = {"helper_calls": 0, "helper_point_off_boundary": 0, "helper_longest_wrong": 0}
 
 
@@ -55,6 +62,7 @@ def cases(rng, budget, widx, nworkers, tier):
 def judge(case):
     G = load()
     a, b = case["a"], case["b"]
+    _inner.new_case()
     exp = K.inter(a, b)
     if not core.admitted():
         return core.not_admitted("margin")
@@ -75,6 +83,7 @@ def judge(case):
         C.run_inter(lambda p, q: p.intersection(q), x, y, exp, "a.intersection(b)", mu, kb_)
     if f[0] == "S" and mu.viol is None:
         _helpers(G, x if ka == "S" else y, y if ka == "S" else x, f, body)
+    _inner.finish(mu)
     return mu.result(outcome=C.show_short(exp, 120))
 
 
@@ -105,7 +114,9 @@ def _helpers(G, s, body_obj, f, body):
 
 
 def worker_report():
-    return dict(_diag)
+    d = dict(_diag)
+    d.update(_inner.report())
+    return d
 
 
 describe = C.describe_pair
